@@ -4,6 +4,6 @@ cd "$(dirname "$0")/.."
 IDS=${@:-C07 C08 C09 C15 C16 C17 C19 C20 C10 C04 C14 C01 C03 C02 C18 C05 C12 C11 C06 C13}
 for id in $IDS; do
   start=$(date +%s)
-  out=$(VERIF_SEED=${VERIF_SEED:-1} nice -n 5 ./check $id --tier thorough 2>/dev/null); rc=$?
+  out=$(VERIF_SEED=${VERIF_SEED:-1} SYNVERIF_SCALE=${SYNVERIF_SCALE:-1} nice -n 5 ./check $id --tier thorough 2>/dev/null); rc=$?
   echo "thorough $id rc=$rc $(( $(date +%s)-start ))s :: $(echo "$out" | grep -E '^(VIOLATION|UNCONFIRMED|HARNESS)' | head -3 | tr '\n' ' ') $(echo "$out" | tail -1 | cut -c1-170)"
 done
